@@ -230,7 +230,9 @@ def pairing(ctx):
         m = ctx.fn(SYS, 'System.' + meth)
         for tag, a0, a1, want0, want1, nres in (('atom indices', 3, [1, 2], POS[3], POS[[1, 2]], 2), ('one index, one position', 0, arr([sp.Rational(1, 2), sp.Rational(1, 3), 2]), POS[0], arr([sp.Rational(1, 2), sp.Rational(1, 3), 2]), 1),
                                               ('positions both', arr([[sp.Rational(1, 2), 0, 0], [0, sp.Rational(1, 4), 0]]), arr([[1, 1, sp.Rational(1, 5)]]), arr([[sp.Rational(1, 2), 0, 0], [0, sp.Rational(1, 4), 0]]), arr([[1, 1, sp.Rational(1, 5)]]), 2),
-                                              ('slice and negative index', slice(1, 3), -1, POS[1:3], POS[-1], 2)):
+                                              ('slice and negative index', slice(1, 3), -1, POS[1:3], POS[-1], 2),
+                                              ('one position, then atom indices', arr([sp.Rational(1, 2), sp.Rational(1, 3), 2]), [1, 2], arr([sp.Rational(1, 2), sp.Rational(1, 3), 2]), POS[[1, 2]], 2),
+                                              ('a tuple of whole numbers is a position, not three atoms', (1, 2, 3), 0, arr([1, 2, 3]), POS[0], 1)):
             rec2 = []
 
             def kern(p0, p1, box, pbc, _n=nres):
@@ -258,7 +260,9 @@ def run(ctx):
                        'comparison scripted by the analyser; this proves they are a fold-minimum over exactly the 3^k candidates of the periodic directions, for all 8 settings. '
                        'Wrapper broadcasting and box/pbc pairing are decided by evaluation with the kernel replaced by the direct separation. '
                        'Not decided: the nearest-image theorem itself (a property of the 27-candidate minimum, not of the code).')
-    from .. import readonly
-    ctx.run_rules([lambda c: minfold(c, DV, 'dvect_c', True), lambda c: minfold(c, DM, 'dmag2_c', False),
+    from .. import readonly, lints
+    from .c01 import scale_free_cleanup
+    ctx.run_rules([lambda c: scale_free_cleanup(c, 'CELL-SCALE') and None, lambda c: lints.c_double(c, 'C-DOUBLE', DV, floor=7), lambda c: lints.c_double(c, 'C-DOUBLE', DM, floor=6),
+                   lambda c: minfold(c, DV, 'dvect_c', True), lambda c: minfold(c, DM, 'dmag2_c', False),
                    lambda c: wrapper(c, DV, 'dvect', 'dvect_c', True), lambda c: wrapper(c, DM, 'dmag', 'dmag2_c', False), pairing,
                    lambda c: readonly.rule(c, DV, floor=2) and None, lambda c: readonly.rule(c, DM, floor=2) and None])
